@@ -18,6 +18,7 @@ import (
 // stateKey names one receiver database: layout "rich" ignores Set.
 type stateKey struct {
 	Fl, Layout, Set, Stored, Shares string
+	Pos                             string // "first" | "middle" | "last": the receiver's place in the keypers list of its sets
 	EonKey                          string // "main" | "other": key material of the newest successful DKG of every set
 	Prev                            bool   // every set with a successful DKG also has an OLDER successful one with the opposite key material (restarted key generation)
 }
@@ -32,6 +33,10 @@ func keyFor(c Case) stateKey {
 		k.EonKey = "main"
 	}
 	k.Prev = c.Hist == "stale"
+	k.Pos = c.Recv.Pos
+	if k.Pos == "" {
+		k.Pos = "middle"
+	}
 	if k.Layout == "solo" {
 		k.Set = c.M.Set
 		if k.Set == "Overflow" {
@@ -114,7 +119,19 @@ func (st *States) build(ctx context.Context, k stateKey) (*fakepg.DB, error) {
 	}
 	configs := configsOf(k)
 	for _, idx := range configs {
-		members := w.Members
+		// tendermint_batch_config.keypers: the receiver at the position of the state (the list is
+		// only consulted for membership; the sender index of a message refers to the DKG result
+		// and to chainobserver's keyper_set)
+		others := []common.Address{w.Members[0], w.Members[2]}
+		var members []common.Address
+		switch k.Pos {
+		case "first":
+			members = []common.Address{w.Receiver, others[0], others[1]}
+		case "last":
+			members = []common.Address{others[0], others[1], w.Receiver}
+		default:
+			members = []common.Address{others[0], w.Receiver, others[1]}
+		}
 		if idx == cfgIndex["NotMember"] {
 			members = []common.Address{w.Members[0], w.Outsider, w.Members[2]}
 		}
